@@ -274,6 +274,21 @@ def _job(arg):
     key = (variant, bs, ks, order)
     gs = adcgen.GroundState(adcgen.Operators())
     mat = adcgen.SecularMatrix(adcgen.IntermediateStates(gs, variant))
+    # FIRST (before the generic-index counters advance): the block with
+    # NUMBERED index names (they live in the
+    # name space of the generic indices): lowest diagonal block, order 2
+    nexpr = None
+    if bs == ks == isr_explicit.CLASSES[variant][0][0] and order == 2:
+        nb = "".join(c + "9" for c in NAMES[bs][0])
+        nk = "".join(c + "9" for c in NAMES[ks][1])
+        try:
+            nexpr = mat.isr_matrix_block(order, f"{bs},{ks}", f"{nb},{nk}")
+            nbo, nbv = split(bs, nb)
+            nko, nkv = split(ks, nk)
+        except Exception as ex:
+            out.append({"type": "exception",
+                        "key": f"C03:block-exception:{key}:numbered",
+                        "what": f"isr_matrix_block raised {ex!r}"})
     names = NAMES[bs][0] + "," + NAMES[ks][1]
     t0 = time.time()
     try:
@@ -328,8 +343,30 @@ def _job(arg):
             todo_ += [(I, J, False)
                       for I, J in rng.sample(diag, min(2, len(diag)))
                       + pairs[:2]]
+        if nexpr is not None:
+            todo_ += [(I, J, "numbered") for I, J in pairs[:4]]
         for I, J, shifted in todo_:
             (oi, vi), (oj, vj) = X.configs[bs][I], X.configs[ks][J]
+            if shifted == "numbered":
+                val = evaluate(model, nexpr, nbo + nbv + nko + nkv,
+                               list(oi) + list(vi) + list(oj) + list(vj))
+                want = X.secular(bs, I, ks, J)[order]
+                out.append({
+                    "type": "case", "case_key": (key, seed, I, J, "num"),
+                    "nontrivial": True,
+                    "kind": f"{variant}:{bs},{ks}:{order}:numbered-names",
+                    "name": f"{variant} M^({order})[{bs},{ks}] with numbered "
+                            f"index names {oi}{vi}|{oj}{vj} (model {seed})",
+                    "ok": val == want,
+                    "key": f"C03:secular-numbered-names:{variant}:{bs},{ks}:"
+                           f"order{order}",
+                    "what": "secular matrix element requested with numbered "
+                            "index names differs from the explicit one",
+                    "replay": {"variant": variant, "block": f"{bs},{ks}",
+                               "order": order, "bra": (oi, vi),
+                               "ket": (oj, vj), "model": mdl,
+                               "derived": val, "explicit": want}})
+                continue
             val = evaluate(model, expr if shifted else uexpr,
                            bo + bv + ko + kv,
                            list(oi) + list(vi) + list(oj) + list(vj))
